@@ -580,7 +580,7 @@ Proof.
   - destruct fl as [|zr [|ze fl']]; try discriminate.
     destruct (Nat.eqb_spec (length zr) t) as [E1|]; [|discriminate].
     destruct (Nat.eqb_spec (length ze) (n * t)) as [E2|]; [|discriminate]. cbn in H.
-    destruct (parse_reps k n t fl') as [[rs' rem']|] eqn:P; [|discriminate]. inversion H; subst. clear H.
+    destruct (parse_reps k n t fl') as [[rs' rem']|] eqn:P; [|discriminate]. inversion H as [[Hrs Hrem]]. clear H Hrs Hrem.
     destruct (IH _ _ _ P) as [F L]. destruct (chunk_ok t n ze E2) as [CL CF].
     split; [|cbn; now rewrite L]. constructor; [|exact F]. repeat split; assumption.
 Qed.
@@ -593,7 +593,7 @@ Proof.
   - destruct fl as [|zenv fl']; [discriminate|].
     destruct (Nat.eqb_spec (length zenv) t) as [E1|]; [|discriminate].
     destruct (parse_reps k n t fl') as [[rs rem1]|] eqn:P; [|discriminate].
-    destruct (parse_envs ks n t rem1) as [[es rem2]|] eqn:P2; [|discriminate]. inversion H; subst. clear H.
+    destruct (parse_envs ks n t rem1) as [[es rem2]|] eqn:P2; [|discriminate]. inversion H as [[Hds Hrem]]. clear H Hds Hrem.
     destruct (parse_reps_ok n t _ _ _ _ P) as [F L]. destruct (IH _ _ _ P2) as [F2 L2].
     split; [constructor; [split; assumption | exact F2] | cbn; now rewrite L, L2].
 Qed.
@@ -650,14 +650,14 @@ Section Trial2.
   Lemma reps_length : forall rs e r0 env, Forall (rep_ok n t) rs -> length (repsM e r0 env rs) = (n * length rs)%nat.
   Proof.
     induction rs as [|[zr ze] rs IH]; intros e r0 env F; cbn [rep_blocks length]; [lia|].
-    inversion F as [|? ? [_ [L _]] F']; subst. cbn in L. rewrite app_length, block_length, IH by (try assumption; now rewrite map_length). lia.
+    apply Forall_cons_iff in F as [[_ [L _]] F']. cbn in L. rewrite app_length, block_length, IH by (try assumption; now rewrite map_length). lia.
   Qed.
 
   Lemma envs_length : forall ds e0, Forall (env_ok n t) ds ->
     length (envsM e0 ds) = (n * list_sum (map (fun ed : envdraw => length (snd ed)) ds))%nat.
   Proof.
     induction ds as [|[zenv rs] ds IH]; intros e0 F; cbn [env_blocks length map list_sum fold_right]; [lia|].
-    inversion F as [|? ? [_ Fr] F']; subst. cbn in Fr. rewrite app_length, reps_length, IH by assumption. cbn. lia.
+    apply Forall_cons_iff in F as [[_ Fr] F']. cbn in Fr. rewrite app_length, reps_length, IH by assumption. unfold list_sum. cbn [snd]. lia.
   Qed.
 
   (** with all noise variances zero every record carries its taxon's labels and equals its true genotypic value *)
@@ -678,3 +678,260 @@ Section Trial2.
     apply add_effects_zero; try (rewrite scale_length; lia); now apply scale_zero.
   Qed.
 End Trial2.
+
+(** * 8. statements about the whole call [phenotype] *)
+Lemma auto_labels_length (prefix : str) (n : nat) : length (auto_labels prefix n) = n.
+Proof. unfold auto_labels. now rewrite map_length, seq_length. Qed.
+
+Definition labels_ok (n : nat) (taxa : option (list str)) (grp : option (list Z)) : Prop :=
+  (forall l, taxa = Some l -> length l = n) /\ (forall l, grp = Some l -> length l = n).
+
+Lemma labels_ok_lengths n taxa grp : labels_ok n taxa grp ->
+  length (labels_or_auto "Taxon"%string n taxa) = n /\ length (grp_col n grp) = n.
+Proof.
+  intros [H1 H2]. split.
+  - destruct taxa as [l|]; cbn; [now apply H1 | apply auto_labels_length].
+  - destruct grp as [l|]; cbn; [rewrite map_length; now apply H2 | apply repeat_length].
+Qed.
+
+Lemma phenotype_inv n t taxa grp gvm nenv nrep sde sdr sdx flat recs :
+  phenotype n t taxa grp gvm nenv nrep sde sdr sdx flat = Some recs ->
+  exists ds, parse_envs (firstn nenv nrep) n t flat = Some (ds, []) /\
+             recs = env_blocks (labels_or_auto "Taxon"%string n taxa) (grp_col n grp) gvm sde sdr sdx 1%Z ds.
+Proof.
+  unfold phenotype. destruct (parse_envs _ n t flat) as [[ds [|x rem]]|] eqn:P; try discriminate.
+  intros H. inversion H. exists ds. split; reflexivity.
+Qed.
+
+Lemma phenotype_cells n t taxa grp gvm nenv nrep sde sdr sdx flat recs :
+  phenotype n t taxa grp gvm nenv nrep sde sdr sdx flat = Some recs ->
+  labels_ok n taxa grp -> length gvm = n ->
+  let tx := labels_or_auto "Taxon"%string n taxa in
+  let tg := grp_col n grp in
+  let nreps := firstn nenv nrep in
+  exists ds, parse_envs nreps n t flat = Some (ds, []) /\ map (fun ed : envdraw => length (snd ed)) ds = nreps /\
+    length recs = (n * list_sum nreps)%nat /\
+    (forall ei zenv rs ri zr ze, nth_error ds ei = Some (zenv, rs) -> nth_error rs ri = Some (zr, ze) ->
+       let cell := filter (cell_is (1 + Z.of_nat ei) (1 + Z.of_nat ri)) recs in
+       length cell = n /\
+       forall i x g v er, nth_error tx i = Some x -> nth_error tg i = Some g -> nth_error gvm i = Some v -> nth_error ze i = Some er ->
+         nth_error cell i = Some (x, g, (1 + Z.of_nat ei)%Z, (1 + Z.of_nat ri)%Z, add_effects v (scale sde zenv) (scale sdr zr) (scale sdx er))) /\
+    (forall e r, (e < 1 \/ e > Z.of_nat (length ds))%Z -> filter (cell_is e r) recs = []) /\
+    (forall ei zenv rs r, nth_error ds ei = Some (zenv, rs) -> (r < 1 \/ r > Z.of_nat (length rs))%Z ->
+       filter (cell_is (1 + Z.of_nat ei) r) recs = []).
+Proof.
+  intros H LO Lg tx tg nreps. apply phenotype_inv in H as (ds & P & ->). fold tx tg nreps in P |- *.
+  destruct (labels_ok_lengths _ _ _ LO) as [Ltx Ltg]. fold tx in Ltx. fold tg in Ltg.
+  destruct (parse_envs_ok n t _ _ _ _ P) as [Fd Ln].
+  exists ds. split; [exact P|]. split; [exact Ln|]. split; [|split; [|split]].
+  - rewrite (envs_length tx tg gvm sde sdr sdx n t) by assumption. now rewrite Ln.
+  - intros ei zenv rs ri zr ze H1 H2 cell. unfold cell. rewrite (envs_filter_hit tx tg gvm sde sdr sdx ds 1%Z ei zenv rs ri zr ze H1 H2).
+    rewrite Forall_forall in Fd. destruct (Fd _ (nth_error_In _ _ H1)) as [_ Fr]. cbn in Fr.
+    rewrite Forall_forall in Fr. destruct (Fr _ (nth_error_In _ _ H2)) as [_ [Lze _]]. cbn in Lze.
+    split.
+    + apply (block_length tx tg gvm n); try assumption. now rewrite map_length.
+    + intros i x g v er Hx Hg Hv He. unfold block. apply block_aux_nth; try assumption.
+      rewrite nth_error_map, He. reflexivity.
+  - intros e r He. apply envs_filter_miss. lia.
+  - intros ei zenv rs r H1 Hr. now apply (envs_filter_norep tx tg gvm sde sdr sdx ds 1%Z ei zenv rs r).
+Qed.
+
+Lemma phenotype_zero_noise n t taxa grp gvm nenv nrep sde sdr sdx flat recs :
+  phenotype n t taxa grp gvm nenv nrep sde sdr sdx flat = Some recs ->
+  labels_ok n taxa grp -> length gvm = n -> Forall (fun v => length v = t) gvm ->
+  zero_vec sde -> zero_vec sdr -> zero_vec sdx -> length sde = t -> length sdr = t -> length sdx = t ->
+  forall rec, In rec recs ->
+    exists i v, nth_error (labels_or_auto "Taxon"%string n taxa) i = Some (p_taxa rec) /\ nth_error (grp_col n grp) i = Some (p_grp rec) /\
+                nth_error gvm i = Some v /\ qlist_eq (p_val rec) v.
+Proof.
+  intros H LO Lg Fg Z1 Z2 Z3 L1 L2 L3 rec Hin. apply phenotype_inv in H as (ds & P & ->).
+  destruct (parse_envs_ok n t _ _ _ _ P) as [Fd _].
+  destruct (labels_ok_lengths _ _ _ LO) as [Ltx Ltg].
+  eapply (zero_noise_truth _ _ gvm sde sdr sdx n t); eassumption.
+Qed.
+
+(** the trial has min(nenv, len(nrep attribute)) environments: all nenv of them unless nenv was raised after nrep was set *)
+Lemma phenotype_envs n t taxa grp gvm nenv nrep sde sdr sdx flat recs :
+  phenotype n t taxa grp gvm nenv nrep sde sdr sdx flat = Some recs ->
+  exists ds, parse_envs (firstn nenv nrep) n t flat = Some (ds, []) /\ length ds = Nat.min nenv (length nrep) /\
+             (forall nenv0 a, nrep = nrep_vec nenv0 a -> (forall l, a = NArr l -> length l = nenv0) -> (nenv <= nenv0)%nat -> length ds = nenv).
+Proof.
+  intros H. apply phenotype_inv in H as (ds & P & _). exists ds. split; [exact P|].
+  destruct (parse_envs_ok n t _ _ _ _ P) as [_ Ln].
+  assert (L : length ds = Nat.min nenv (length nrep)) by (rewrite <- (map_length (fun ed : envdraw => length (snd ed)) ds), Ln; apply firstn_length).
+  split; [exact L|]. intros nenv0 a -> Ha Hle. rewrite L.
+  assert (La : length (nrep_vec nenv0 a) = nenv0) by (destruct a as [k|l]; cbn; [apply repeat_length | now apply Ha]).
+  rewrite La. lia.
+Qed.
+
+Lemma phenotype_stale_nrep_refuted :
+  exists recs, phenotype 1 1 None None [[1]] 3 (nrep_vec 1 (NScalar 1)) [0] [0] [0] [[0]; [0]; [0]] = Some recs /\
+               length recs = 1%nat /\ filter (cell_is 2 1) recs = [] /\ filter (cell_is 3 1) recs = [].
+Proof. eexists. split; [vm_compute; reflexivity|]. repeat split. Qed.
+
+(** the request stream is consumed in the order env, (rep, err)*, per environment: flattening well-shaped
+    structured draws in that order parses back to them, with nothing left over *)
+Fixpoint flatten_reps (rs : list repdraw) : list (list Q) :=
+  match rs with [] => [] | (zr, ze) :: rest => zr :: concat ze :: flatten_reps rest end.
+Fixpoint flatten_envs (ds : list envdraw) : list (list Q) :=
+  match ds with [] => [] | (zenv, rs) :: rest => zenv :: flatten_reps rs ++ flatten_envs rest end.
+
+Lemma chunk_concat (t : nat) : forall (ze : list (list Q)), Forall (fun row => length row = t) ze ->
+  chunk t (length ze) (concat ze) = ze /\ length (concat ze) = (length ze * t)%nat.
+Proof.
+  induction 1 as [|row ze Hr _ [IH1 IH2]]; cbn [length concat chunk]; [split; reflexivity|].
+  rewrite firstn_app, Hr, Nat.sub_diag, firstn_O, app_nil_r, <- Hr, firstn_all.
+  rewrite skipn_app, Hr, Nat.sub_diag, <- Hr, skipn_all. cbn [app skipn]. rewrite Hr in *. rewrite IH1, app_length, IH2. split; [reflexivity | lia].
+Qed.
+
+Lemma parse_flatten_reps (n t : nat) : forall rs tail, Forall (rep_ok n t) rs ->
+  parse_reps (length rs) n t (flatten_reps rs ++ tail) = Some (rs, tail).
+Proof.
+  induction rs as [|[zr ze] rs IH]; intros tail F; cbn [length flatten_reps parse_reps app]; [reflexivity|].
+  apply Forall_cons_iff in F as [[L1 [L2 Fr]] F']. cbn in L1, L2, Fr.
+  destruct (chunk_concat t ze Fr) as [C1 C2]. rewrite L2 in C1, C2.
+  rewrite L1, C2, !Nat.eqb_refl. cbn [andb]. rewrite IH by assumption. now rewrite C1.
+Qed.
+
+Lemma parse_flatten_envs (n t : nat) : forall ds tail, Forall (env_ok n t) ds ->
+  parse_envs (map (fun ed : envdraw => length (snd ed)) ds) n t (flatten_envs ds ++ tail) = Some (ds, tail).
+Proof.
+  induction ds as [|[zenv rs] ds IH]; intros tail F; cbn [map flatten_envs parse_envs app snd]; [reflexivity|].
+  apply Forall_cons_iff in F as [[L1 Fr] F']. cbn in L1, Fr.
+  rewrite L1, Nat.eqb_refl, <- app_assoc, parse_flatten_reps by assumption. now rewrite IH.
+Qed.
+
+(** * 9. estimate-level corollaries used by Props/C14.v *)
+Lemma estimate_absent_missing (ug hg : bool) (tcols names : list str) (rows : list trow) (gtx : list str) (gtg : option (list Z))
+    (tx : list str) (tg : option (list Z)) (tr : list str) (m : list (option (list Q))) :
+  estimate ug hg tcols names rows (Some (Some gtx, gtg)) = Some (tx, tg, tr, m) ->
+  forall i x, nth_error gtx i = Some x -> (forall r, In r rows -> t_taxa r <> x) -> nth_error m i = Some None.
+Proof.
+  intros H i x Hx Hab. destruct (estimate_aligned _ _ _ _ _ _ _ _ H) as (sel & _ & _ & _ & _ & _ & A). now apply (A i x Hx).
+Qed.
+
+Lemma estimate_aligned_partial (ug hg : bool) (tcols names : list str) (rows : list trow) (gtx : list str) (gtg : option (list Z))
+    (tx : list str) (tg : option (list Z)) (tr : list str) (m : list (option (list Q))) :
+  estimate ug hg tcols names rows (Some (Some gtx, gtg)) = Some (tx, tg, tr, m) ->
+  tx = gtx /\ tg = gtg /\ tr = tcols /\ length m = length gtx /\
+  exists sel, resolve tcols names = Some sel /\
+  (ug = false \/ single_key ug rows ->
+   forall i x, nth_error gtx i = Some x -> (exists r, In r rows /\ t_taxa r = x) ->
+     let recs := filter (of_taxon x) rows in
+     recs <> [] /\
+     nth_error m i = Some (Some (map (fun j => sumQ (map (fun r => nth j (t_val r) 0) recs) / inject_Z (Z.of_nat (length recs))) sel))).
+Proof.
+  intros H. destruct (estimate_aligned _ _ _ _ _ _ _ _ H) as (sel & R & E1 & E2 & E3 & L & A).
+  repeat split; try assumption. exists sel. split; [exact R|]. intros G i x Hx EX recs.
+  assert (SK : single_key ug rows) by (destruct G as [->|G]; [apply single_key_nogrp | exact G]).
+  split.
+  - destruct EX as (r & Hr & Er). intro E. assert (I : In r recs) by (apply filter_In; split; [exact Hr | unfold of_taxon; now rewrite Er, String.eqb_refl]).
+    rewrite E in I. exact I.
+  - now apply (A i x Hx).
+Qed.
+
+Lemma estimate_join_refuted :
+  exists (rows : list trow) (gtx : list str) tx tg tr m,
+    estimate true true ["y"%string] ["y"%string] rows (Some (Some gtx, None)) = Some (tx, tg, tr, m) /\
+    exists i x, nth_error gtx i = Some x /\ (exists r, In r rows /\ t_taxa r = x) /\
+      let recs := filter (of_taxon x) rows in
+      exists got, nth_error m i = Some (Some [got]) /\
+        ~ got == sumQ (map (fun r => nth 0 (t_val r) 0) recs) / inject_Z (Z.of_nat (length recs)).
+Proof.
+  exists [("a"%string, Some 1%Z, [2]); ("a"%string, Some 2%Z, [4]); ("a"%string, Some 2%Z, [16])], ["a"%string].
+  do 4 eexists. split; [vm_compute; reflexivity|]. exists 0%nat, "a"%string. split; [reflexivity|]. split.
+  - eexists. split; [left; reflexivity | reflexivity].
+  - eexists. split; [reflexivity|]. vm_compute. discriminate.
+Qed.
+
+Lemma estimate_null_group_refuted :
+  exists (rows : list trow) (gtx : list str) tx tg tr m,
+    estimate true true ["y"%string] ["y"%string] rows (Some (Some gtx, None)) = Some (tx, tg, tr, m) /\
+    exists i x, nth_error gtx i = Some x /\ (exists r, In r rows /\ t_taxa r = x) /\ nth_error m i = Some None.
+Proof.
+  exists [("a"%string, None, [2]); ("a"%string, None, [4])], ["a"%string].
+  do 4 eexists. split; [vm_compute; reflexivity|]. exists 0%nat, "a"%string. split; [reflexivity|]. split; [|reflexivity].
+  eexists. split; [left; reflexivity | reflexivity].
+Qed.
+
+Lemma estimate_groups_means (ug hg : bool) (tcols names : list str) (rows : list trow)
+    (tx : list str) (tg : option (list Z)) (tr : list str) (m : list (option (list Q))) :
+  estimate ug hg tcols names rows None = Some (tx, tg, tr, m) ->
+  exists sel, resolve tcols names = Some sel /\
+  let ks := keys_of ug rows in
+  tx = map fst ks /\ tg = (if ug then Some (map snd ks) else None) /\ tr = tcols /\ length m = length ks /\
+  StronglySorted klt ks /\ NoDup ks /\
+  (forall k, In k ks <-> exists r, In r rows /\ key_of ug r = Some k) /\
+  forall i k, nth_error ks i = Some k ->
+    let recs := members ug k rows in
+    recs <> [] /\ (forall r, In r recs <-> In r rows /\ key_of ug r = Some k) /\
+    nth_error m i = Some (Some (map (fun j => sumQ (map (fun r => nth j (t_val r) 0) recs) / inject_Z (Z.of_nat (length recs))) sel)).
+Proof.
+  intros H. destruct (estimate_groups _ _ _ _ _ _ H) as (sel & R & E1 & E2 & E3 & S & ND & IK & EM).
+  exists sel. split; [exact R|]. cbv zeta.
+  split; [exact E1|]. split; [exact E2|]. split; [exact E3|]. split; [rewrite EM; apply map_length|].
+  split; [exact S|]. split; [exact ND|]. split; [exact IK|].
+  intros i k Hk. split; [|split].
+  - apply nth_error_In, IK in Hk as (r & Hr & Hkr). intro E. assert (I : In r (members ug k rows)) by (apply members_In; auto). rewrite E in I. exact I.
+  - intro r. apply members_In.
+  - rewrite EM, nth_error_map, Hk. reflexivity.
+Qed.
+
+(** * 10. TruePhenotyping: one record per taxon carrying its labels and exactly the true genotypic value *)
+Lemma nth_error_combine {A B} : forall (l1 : list A) (l2 : list B) i a b,
+  nth_error l1 i = Some a -> nth_error l2 i = Some b -> nth_error (combine l1 l2) i = Some (a, b).
+Proof.
+  induction l1 as [|x l1 IH]; intros [|y l2] [|i] a b H1 H2; cbn in *; try discriminate.
+  - now inversion H1; inversion H2.
+  - now apply IH.
+Qed.
+
+Lemma true_rows_spec n taxa grp gvm : labels_ok n taxa grp -> length gvm = n ->
+  length (true_rows n taxa grp gvm) = n /\
+  forall i x g v, nth_error (labels_or_auto "Taxon"%string n taxa) i = Some x -> nth_error (grp_col n grp) i = Some g ->
+                  nth_error gvm i = Some v -> nth_error (true_rows n taxa grp gvm) i = Some (x, g, v).
+Proof.
+  intros LO Lg. destruct (labels_ok_lengths _ _ _ LO) as [Ltx Ltg]. unfold true_rows. split.
+  - rewrite map2_length, combine_length. lia.
+  - intros i x g v Hx Hg Hv.
+    rewrite (nth_error_map2 _ _ _ i (x, g) v); [reflexivity | now apply nth_error_combine | exact Hv].
+Qed.
+
+(** * 11. what the join does in general: the group with the greatest key among those carrying the label wins *)
+Lemma lookup_last_greatest (x : str) (f : key -> list Q) : forall (ks : list key) (kx : key),
+  StronglySorted klt ks -> In kx ks -> fst kx = x -> (forall k, In k ks -> fst k = x -> k = kx \/ klt k kx) ->
+  lookup_last x (map (fun k => (k, f k)) ks) = Some (f kx).
+Proof.
+  induction ks as [|k ks IH]; intros kx S Hin Hx Hmax; [destruct Hin|]. cbn.
+  apply StronglySorted_inv in S as [S Hk]. rewrite Forall_forall in Hk.
+  destruct (in_dec key_eq_dec kx ks) as [I|NI].
+  - rewrite (IH kx); auto. intros k' Hk' Fk'. apply Hmax; [now right | exact Fk'].
+  - destruct Hin as [->|Hin]; [|contradiction].
+    rewrite lookup_last_none.
+    + subst x. now rewrite String.eqb_refl.
+    + intros [k' v'] Hkv. cbn. apply in_map_iff in Hkv as (k'' & E & Hk''). inversion E; subst k'' v'. clear E.
+      intro Ek. destruct (Hmax k' (or_intror Hk'') Ek) as [->|L]; [contradiction|].
+      apply (key_ltb_asym k' kx L). now apply Hk.
+Qed.
+
+Lemma estimate_join_last_group (hg : bool) (tcols names : list str) (rows : list trow) (gtx : list str) (gtg : option (list Z))
+    (tx : list str) (tg : option (list Z)) (tr : list str) (m : list (option (list Q))) :
+  estimate true hg tcols names rows (Some (Some gtx, gtg)) = Some (tx, tg, tr, m) ->
+  exists sel, resolve tcols names = Some sel /\
+  forall i x g, nth_error gtx i = Some x ->
+    (exists r, In r rows /\ t_taxa r = x /\ t_grp r = Some g) ->
+    (forall r g', In r rows -> t_taxa r = x -> t_grp r = Some g' -> (g' <= g)%Z) ->
+    nth_error m i = Some (Some (mean_rows sel (members true (x, g) rows))).
+Proof.
+  intros H. destruct (estimate_aligned _ _ _ _ _ _ _ _ H) as (sel & R & _). exists sel. split; [exact R|].
+  unfold estimate in H. rewrite R in H. destruct (true && negb hg); [discriminate|]. inversion H; subst. clear H.
+  intros i x g Hx (r & Hr & Et & Eg) Hmax. unfold join. rewrite nth_error_map, Hx. cbn. f_equal.
+  unfold agg. apply (lookup_last_greatest x (fun k => mean_rows sel (members true k rows))).
+  - apply keys_of_sorted.
+  - apply keys_of_In. exists r. split; [exact Hr|]. unfold key_of. now rewrite Eg, Et.
+  - reflexivity.
+  - intros k Hk Fk. apply keys_of_In in Hk as (r' & Hr' & Ek'). unfold key_of in Ek'.
+    destruct (t_grp r') as [g'|] eqn:Eg'; [|discriminate]. inversion Ek'; subst k. cbn in Fk.
+    pose proof (Hmax r' g' Hr' Fk Eg') as Le. destruct (Z.eq_dec g' g) as [->|NE]; [left; now rewrite Fk|].
+    right. apply key_ltb_spec. right. cbn. split; [exact Fk | lia].
+Qed.
